@@ -465,6 +465,29 @@ fn mk_hash_column(bits: u8, ref_counted: bool) -> HashColumn {
 		db_version: crate::options::CURRENT_VERSION,
 	}
 }
+fn mk_hash_column_with_table(bits: u8, ref_counted: bool) -> HashColumn {
+	let path = std::path::PathBuf::new();
+	HashColumn {
+		col: 0,
+		tables: RwLock::new(Tables {
+			index: crate::index::verif_index::mk_table(0, bits),
+			value: vec![crate::table::verif_table::mk_table_tier(64, false, ref_counted, 0)],
+			ref_count: None,
+		}),
+		reindex: RwLock::new(Reindex { queue: VecDeque::new(), progress: AtomicU64::new(0) }),
+		ref_count_cache: None,
+		path,
+		preimage: false,
+		uniform_keys: false,
+		collect_stats: false,
+		ref_counted,
+		append_only: false,
+		salt: [0u8; 32],
+		stats: unsafe { std::mem::MaybeUninit::uninit().assume_init() },
+		compression: Compress::new(crate::compress::CompressionType::NoCompression, u32::MAX),
+		db_version: crate::options::CURRENT_VERSION,
+	}
+}
 fn plan_reset(need: usize) {
 	unsafe {
 		IX_N = 0;
@@ -579,5 +602,110 @@ plan_harness!(#[kani::unwind(5)] u15_plan_new_need1, u15_plan_new(1));
 plan_harness!(#[kani::unwind(5)] u15_plan_new_need2, u15_plan_new(2));
 plan_harness!(#[kani::unwind(5)] u15_plan_existing_current, u15_plan_existing(true));
 plan_harness!(#[kani::unwind(5)] u15_plan_existing_old, u15_plan_existing(false));
+
+
+// ================================================================== U16: index walk used by migration / validation (iter_index_internal)
+pub(crate) static mut WALK_ENTRIES: [u64; 64] = [0; 64];
+pub(crate) static mut WALK_CHUNK: u64 = 0;
+pub(crate) static mut META_N: usize = 0;
+pub(crate) static mut META_RC: u32 = 0;
+pub(crate) static mut META_PK: [u8; 26] = [0; 26];
+pub(crate) fn stub_entries<L: LogQuery>(_t: &IndexTable, chunk_index: u64, _log: &L) -> Result<[crate::index::Entry; 64]> {
+	// contract of IndexTable::entries: the 64 entries of the chunk (log overlay first, then file): U1.transmute_is_le_word
+	unsafe {
+		WALK_CHUNK = chunk_index;
+		Ok(std::mem::transmute::<[u64; 64], [crate::index::Entry; 64]>(WALK_ENTRIES))
+	}
+}
+pub(crate) fn stub_get_with_meta<L: LogQuery>(_t: &ValueTable, _index: u64, _log: &L) -> Result<Option<(Value, u32, [u8; 26], bool)>> {
+	// contract of ValueTable::get_with_meta (U6.R): the stored value, counter and key tail of a live entry
+	unsafe {
+		META_N += 1;
+		Ok(Some((Vec::new(), META_RC, META_PK, false)))
+	}
+}
+pub(crate) static mut SEEN_N: usize = 0;
+pub(crate) static mut SEEN_KEY: [[u8; 32]; 4] = [[0u8; 32]; 4];
+pub(crate) static mut SEEN_RC: [u32; 4] = [0; 4];
+#[kani::proof]
+#[kani::unwind(66)]
+#[kani::solver(kissat)]
+#[kani::stub(crate::index::IndexTable::entries, stub_entries)]
+#[kani::stub(crate::table::ValueTable::get_with_meta, stub_get_with_meta)]
+#[kani::stub(std::hash::RandomState::new, crate::verif_stubs::random_state_new)]
+#[kani::stub(parking_lot::RawRwLock::lock_shared_slow, crate::verif_stubs::lock_shared_slow)]
+#[kani::stub(parking_lot::RawRwLock::unlock_shared_slow, crate::verif_stubs::unlock_shared_slow)]
+#[kani::stub(parking_lot::RawRwLock::lock_exclusive_slow, crate::verif_stubs::lock_exclusive_slow)]
+#[kani::stub(parking_lot::RawRwLock::unlock_exclusive_slow, crate::verif_stubs::unlock_exclusive_slow)]
+#[kani::stub(std::fmt::format, crate::verif_stubs::fmt_format)]
+fn u16_index_walk_visits_every_live_entry() {
+	// kept on the stack and never dropped (a move to the heap is a byte copy that hides the index size from the symbolic executor)
+	let col = std::mem::ManuallyDrop::new(mk_hash_column_with_table(16, true));
+	// an arbitrary index page whose live entries point into tier 0
+	// four slots are arbitrary (live or empty, any address in tier 0), the other 60 are empty
+	let mut page = [0u64; 64];
+	let a: [u64; 4] = kani::any();
+	kani::assume(a[0] & 0xff == 0 && a[1] & 0xff == 0 && a[2] & 0xff == 0 && a[3] & 0xff == 0);
+	page[0] = a[0];
+	page[1] = a[1];
+	page[37] = a[2];
+	page[63] = a[3];
+	unsafe {
+		WALK_ENTRIES = page;
+		META_N = 0;
+		SEEN_N = 0;
+		META_RC = kani::any();
+		META_PK = kani::any();
+	}
+	let log: &'static crate::log::Log = Box::leak(Box::new(crate::log::verif_log::mk_log()));
+	let last_chunk = (1u64 << 16) - 1;
+	let r = ok(col.iter_index_internal(
+		log,
+		|st| {
+			unsafe {
+				if let IterStateOrCorrupted::Item(s) = st {
+					if SEEN_N < 4 {
+						SEEN_KEY[SEEN_N] = s.key;
+						SEEN_RC[SEEN_N] = s.rc;
+					}
+					std::mem::forget(s.value);
+				}
+				SEEN_N += 1;
+			}
+			Ok(true)
+		},
+		last_chunk,
+	));
+	assert!(r.is_some(), "U16.index_walk.no_error");
+	// count the live entries and locate the k-th one
+	let mut live = 0usize;
+	let k: usize = kani::any();
+	let mut kth: u64 = 0;
+	let mut j = 0;
+	while j < 64 {
+		if page[j] != 0 {
+			if live == k {
+				kth = page[j];
+			}
+			live += 1;
+		}
+		j += 1;
+	}
+	let n = unsafe { SEEN_N };
+	assert!(n == live, "U16.index_walk.callback_once_per_live_entry");
+	assert!(unsafe { META_N } == live, "U16.index_walk.value_fetched_once_per_live_entry");
+	if k < live {
+		// the k-th callback carries the k-th live entry: key = recovered prefix ++ stored tail, count as stored
+		let t = col.tables.read();
+		let exp = t.index.recover_key_prefix(last_chunk, crate::index::Entry::from_u64_verif(kth));
+		let q: usize = kani::any();
+		kani::assume(q < 32);
+		let got = unsafe { SEEN_KEY[k][q] };
+		assert!(got == if q < 6 { exp[q] } else { unsafe { META_PK[q - 6] } }, "U16.index_walk.key_is_recovered_prefix_plus_stored_tail");
+		assert!(unsafe { SEEN_RC[k] } == unsafe { META_RC }, "U16.index_walk.reports_stored_count");
+		std::mem::forget(t);
+	}
+	kani::cover!(live >= 2 && page[0] == 0, "live entries behind an empty slot");
+}
 
 /*@@GENERATED:column@@*/
